@@ -1,6 +1,8 @@
 //! C06 — Binance L2 depth-update sequencing. Ops (see lean/BarterModel/Driver/C06.lean):
 //!   `init spot|fut n` | `venue k id:b|a:price:amount …` | `snap k s | p:a … | p:a …` | `snapu k s | … | …`
-//!   | `start` | `msg sym U u pu | p:a … | p:a …` | `end`
+//!   | `start` | `msg sym U u pu | p:a … | p:a …` | `end` | `depth k n` (the REST snapshot of instrument `k` is
+//!   cut to the best `n` levels per side, as the code's fetchers request with `limit=100`; from then on the blocks
+//!   that print `book<k>` also print `lv<k>:<b|a>:<price> <amount>` for every price of `venue k`)
 //!
 //! `snap` builds the REST snapshot JSON and parses it with the real `BinanceOrderBookL2Snapshot`;
 //! `start` calls the real `ExchangeTransformer::init` of `BinanceSpotOrderBooksL2Transformer` /
@@ -123,6 +125,25 @@ fn fmt_out(r: &Res) -> String {
     }
 }
 
+/// the prices of `venue k` per side (bids, asks), ascending, each once
+type Universe = (std::collections::BTreeSet<Decimal>, std::collections::BTreeSet<Decimal>);
+
+/// per-level observation: the local book's amount at every price of the venue's universe (0 = no level)
+fn lv_lines(lines: &mut Vec<String>, pfx: &str, depths: &[usize], uni: &BTreeMap<usize, Universe>, books: &[OrderBook]) {
+    for (k, b) in books.iter().enumerate() {
+        if !depths.contains(&k) {
+            continue;
+        }
+        let Some((ub, ua)) = uni.get(&k) else { continue };
+        for (tag, prices, levels) in [("b", ub, b.bids().levels()), ("a", ua, b.asks().levels())] {
+            for p in prices {
+                let amount = levels.iter().find(|l| l.price == *p).map(|l| l.amount).unwrap_or(Decimal::ZERO);
+                lines.push(format!("{pfx}{k}:{tag}:{} {}", fmt_dec(*p), fmt_dec(amount)));
+            }
+        }
+    }
+}
+
 fn apply(books: &mut [OrderBook], ev: &Ev) {
     if let Some(b) = books.get_mut(ev.instrument) {
         b.update(ev.kind.clone());
@@ -142,6 +163,8 @@ fn run() {
         let mut alive = true;
         let mut reconnected = false;
         let mut all_outs: Vec<Res> = vec![];
+        let mut uni: BTreeMap<usize, Universe> = BTreeMap::new();
+        let mut depths: Vec<usize> = vec![];
         let exchange = |spot: bool| if spot { ExchangeId::BinanceSpot } else { ExchangeId::BinanceFuturesUsd };
         for op in case.ops.iter() {
             lines.push("@".into());
@@ -157,8 +180,28 @@ fn run() {
                     tr = None;
                     reconnected = false;
                     books.clear();
+                    uni.clear();
+                    depths.clear();
                 }
-                "venue" => {}
+                "venue" => {
+                    let k: usize = op[1].parse().expect("k");
+                    let mut u: Universe = Default::default();
+                    for c in &op[2..] {
+                        let f: Vec<&str> = c.split(':').collect();
+                        assert!(f.len() == 4, "bad change {c:?}");
+                        match f[1] {
+                            "b" => u.0.insert(parse_dec(f[2])),
+                            "a" => u.1.insert(parse_dec(f[2])),
+                            other => panic!("bad side {other}"),
+                        };
+                    }
+                    uni.insert(k, u);
+                }
+                "depth" => {
+                    let k: usize = op[1].parse().expect("k");
+                    let _n: u64 = op[2].parse().expect("n");
+                    depths.push(k);
+                }
                 // a new connection for the same consumer: the local books persist, the transformer
                 // and the initial snapshots are those of the new connection
                 "reconnect" => {
@@ -228,6 +271,7 @@ fn run() {
                             for (k, b) in books.iter().enumerate() {
                                 lines.push(format!("book{k} {}", fmt_book(b)));
                             }
+                            lv_lines(lines, "lv", &depths, &uni, &books);
                         }
                     }
                 }
@@ -298,6 +342,7 @@ fn run() {
                     for (k, b) in books.iter().enumerate() {
                         lines.push(format!("book{k} {}", fmt_book(b)));
                     }
+                    lv_lines(lines, "lv", &depths, &uni, &books);
                 }
                 "end" => {
                     assert!(tr.is_some(), "end before start");
@@ -326,6 +371,7 @@ fn run() {
                     for (k, b) in fbooks.iter().enumerate() {
                         lines.push(format!("fbook{k} {}", fmt_book(b)));
                     }
+                    lv_lines(lines, "flv", &depths, &uni, &fbooks);
                 }
                 other => panic!("bad op {other}"),
             }
@@ -468,9 +514,13 @@ fn venue_line(k: usize, v: &[Chg]) -> String {
     format!("venue {k} {body}")
 }
 
-fn snap_line(op: &str, k: usize, v: &[Chg], s: u64, rng: &mut Rng) -> String {
+/// the REST snapshot at `s`; `depth = Some(d)`: cut to the best `d` levels per side (highest bids, lowest asks),
+/// what the venue answers to `…&limit=d`
+fn snap_line(op: &str, k: usize, v: &[Chg], s: u64, rng: &mut Rng, depth: Option<usize>) -> String {
+    let d = depth.unwrap_or(usize::MAX);
     let mut b: Vec<String> = side_at(v, s, true).values().map(|(p, a)| format!("{p}:{a}")).collect();
-    let mut a: Vec<String> = side_at(v, s, false).values().map(|(p, a)| format!("{p}:{a}")).collect();
+    b.drain(..b.len().saturating_sub(d));
+    let mut a: Vec<String> = side_at(v, s, false).values().take(d).map(|(p, a)| format!("{p}:{a}")).collect();
     shuffle(rng, &mut b);
     shuffle(rng, &mut a);
     format!("{op} {k} {s} | {} | {}", b.join(" "), a.join(" "))
@@ -539,7 +589,7 @@ fn garbage_side(rng: &mut Rng, grid: &[String]) -> Vec<String> {
     ls
 }
 
-fn gen_random_case(out: &mut Out, rng: &mut Rng, thorough: bool) {
+fn gen_random_case(out: &mut Out, rng: &mut Rng, thorough: bool, partial: bool) {
     let spot = rng.chance(50);
     let n = *rng.pick(&[1usize, 1, 2, 3]);
     out.line(format!("init {} {n}", if spot { "spot" } else { "fut" }));
@@ -550,6 +600,16 @@ fn gen_random_case(out: &mut Out, rng: &mut Rng, thorough: bool) {
     for (k, (v, _)) in venues.iter().enumerate() {
         out.line(venue_line(k, v));
     }
+    // depth-limited REST snapshots (the code's fetchers ask for `limit=100`): per instrument the best 1-4 levels
+    // per side (the venues have at most 6 prices), 15 % of the instruments of such a case keep the full depth
+    let depths: Vec<Option<usize>> = (0..n)
+        .map(|_| if partial && !rng.chance(15) { Some(rng.range(1, 4) as usize) } else { None })
+        .collect();
+    for (k, d) in depths.iter().enumerate() {
+        if let Some(d) = d {
+            out.line(format!("depth {k} {d}"));
+        }
+    }
     // one to three connections: after the first the consumer's local books persist and each new
     // connection starts with a fresh snapshot (re-initialisation after a break / a reconnect)
     let connections = *rng.pick(&[1usize, 1, 1, 2, 2, 3]);
@@ -558,7 +618,7 @@ fn gen_random_case(out: &mut Out, rng: &mut Rng, thorough: bool) {
             out.line("reconnect");
         }
         let fail_init = rng.chance(4);
-        if !gen_connection(out, rng, spot, n, &venues, garbage, extras, fail_init) {
+        if !gen_connection(out, rng, spot, n, &venues, &depths, garbage, extras, fail_init) {
             return;
         }
     }
@@ -572,6 +632,7 @@ fn gen_connection(
     spot: bool,
     n: usize,
     venues: &[(Vec<Chg>, Vec<String>)],
+    depths: &[Option<usize>],
     garbage: bool,
     extras: bool,
     fail_init: bool,
@@ -608,10 +669,10 @@ fn gen_connection(
             .unwrap_or(base.len());
         if fail_init && k == fail_k {
             if rng.chance(50) {
-                snaps.push(snap_line("snapu", k, &v, s, rng));
+                snaps.push(snap_line("snapu", k, &v, s, rng, depths[k]));
             }
         } else {
-            snaps.push(snap_line("snap", k, &v, s, rng));
+            snaps.push(snap_line("snap", k, &v, s, rng, depths[k]));
         }
         let mut d = perturb(rng, &base, cover);
         if garbage {
@@ -716,7 +777,14 @@ fn generate(seed: u64, n_cases: usize, tier: &str) {
     for _ in 0..n_cases {
         id += 1;
         out.case(format!("r{id}"));
-        gen_random_case(&mut out, &mut rng, thorough);
+        gen_random_case(&mut out, &mut rng, thorough, false);
+    }
+    // depth-limited snapshots: extra cases from an independent stream (the cases above are unchanged)
+    let mut prng = Rng::new(seed ^ 0x9e37_79b9_7f4a_7c15);
+    for _ in 0..(n_cases / 4).max(if n_cases > 0 { 10 } else { 0 }) {
+        id += 1;
+        out.case(format!("p{id}"));
+        gen_random_case(&mut out, &mut prng, thorough, true);
     }
     out.flush();
 }
